@@ -40,6 +40,8 @@ type c20Extractor struct {
 	// local variable names of (*Runner).Run → the canonical names the recognisers use, so that
 	// renaming a local does not change the extracted paths
 	alias map[string]string
+	// retirement functions: also report select cases, defers and goroutine spawns
+	commTokens bool
 	// statistics
 	nIf, nStmts int
 }
@@ -144,6 +146,13 @@ var c20Guards = map[string]string{
 	"reloadErr == nil":                                                 "errnil",
 	"waitResult == reloadReadyWaitSignal && termSig != nil":            "term",
 	"waitResult != reloadReadyWaitReady":                               "notready",
+	// retirement functions
+	"c == nil || c.ActiveSessionCount() == 0": "nosession",
+	"logEvery > 0":                            "logevery",
+	"m == nil || oldControlPlane == nil":      "nilplane",
+	"m.lastRetirementCancel != nil":           "hasprev",
+	"oldCancel != nil":                        "hasoldcancel",
+	"successor != nil":                        "hassucc",
 }
 
 // pure reads of the manager: no token.
@@ -259,6 +268,34 @@ func (x *c20Extractor) callToken(c *ast.CallExpr) string {
 		return "?queueReloadRequest"
 	case "rollbackStagedReloadHandoff":
 		return "" // closes the staged generation; no reload flag involved
+	// retirement functions (cmd/run.go waitForControlPlaneDrain / retireControlPlaneConnections,
+	// cmd/reload_manager.go startControlPlaneRetirement)
+	case "time.NewTimer":
+		return "timer:" + arg(0)
+	case "time.NewTicker":
+		return "ticker:" + arg(0)
+	case "c.AbortConnections":
+		return "abortconns"
+	case "waitForControlPlaneDrain":
+		return "drainwait:" + arg(3)
+	case "retireControlPlaneConnections":
+		return "retireconns:" + arg(5)
+	case "remainingReloadRetirementBudget":
+		return "budget:" + arg(1)
+	case "oldControlPlane.MarkRetired":
+		return "markretired"
+	case "oldCancel":
+		return "oldcancel"
+	case "oldControlPlane.Close":
+		return "closeplane"
+	case "successor.RunReloadRetirementCleanup":
+		return "cleanup"
+	case "m.lastRetirementCancel":
+		return "cancelprev"
+	case "context.WithCancel":
+		return "newctx"
+	case "close":
+		return "close:" + arg(0)
 	}
 	if c20PureReads[fun] {
 		return ""
@@ -302,6 +339,8 @@ func (x *c20Extractor) exprTokens(n ast.Node) []string {
 			for _, l := range v.Lhs {
 				if s := x.src(l); strings.HasPrefix(s, "reloadManager.") {
 					out = append(out, "?assign:"+s)
+				} else if strings.HasPrefix(s, "m.") {
+					out = append(out, "set:"+s)
 				}
 			}
 		}
@@ -409,11 +448,31 @@ func (x *c20Extractor) stmt(s ast.Stmt) []c20Path {
 		var alts []c20Path
 		for _, cc := range v.Body.List {
 			cl := cc.(*ast.CommClause)
-			alts = append(alts, c20Prefix(x.exprTokens(cl.Comm), x.block(cl.Body))...)
+			pre := x.exprTokens(cl.Comm)
+			if x.commTokens {
+				if cl.Comm == nil {
+					pre = append(pre, "on:default")
+				} else {
+					pre = append(pre, "on:"+x.src(cl.Comm))
+				}
+			}
+			alts = append(alts, c20Prefix(pre, x.block(cl.Body))...)
 		}
 		return c20Dedupe(alts)
-	case *ast.ForStmt, *ast.RangeStmt:
-		// no loop is expected inside the extracted regions; make it visible
+	case *ast.ForStmt:
+		if v.Init == nil && v.Cond == nil && v.Post == nil {
+			// `for { … }`: one iteration; falling through the body means "go round again"
+			ps := x.block(v.Body.List)
+			for i := range ps {
+				if ps[i].term == "" || ps[i].term == "next" {
+					ps[i].term = "loop"
+				}
+			}
+			return ps
+		}
+		return []c20Path{{toks: []string{"?loop"}}}
+	case *ast.RangeStmt:
+		// no other loop is expected inside the extracted regions; make it visible
 		return []c20Path{{toks: []string{"?loop"}}}
 	case *ast.BranchStmt:
 		switch v.Tok {
@@ -426,15 +485,27 @@ func (x *c20Extractor) stmt(s ast.Stmt) []c20Path {
 		}
 		return []c20Path{{}}
 	case *ast.ReturnStmt:
-		return []c20Path{{toks: x.exprTokens(v), term: "return"}}
+		toks := x.exprTokens(v)
+		for _, r := range v.Results {
+			if id, ok := r.(*ast.Ident); ok && strings.HasPrefix(id.Name, "controlPlaneDrain") {
+				toks = append(toks, "ret:"+strings.ToLower(strings.TrimPrefix(id.Name, "controlPlaneDrain")))
+			}
+		}
+		return []c20Path{{toks: toks, term: "return"}}
 	case *ast.GoStmt:
 		// the spawned function runs elsewhere; its arguments are evaluated here
 		var toks []string
 		for _, a := range v.Call.Args {
 			toks = append(toks, x.exprTokens(a)...)
 		}
+		if x.commTokens {
+			toks = append(toks, "spawn")
+		}
 		return []c20Path{{toks: toks}}
 	case *ast.DeferStmt:
+		if x.commTokens {
+			return []c20Path{{toks: []string{"defer:" + x.src(v.Call)}}}
+		}
 		return []c20Path{{toks: []string{"?defer"}}}
 	default:
 		toks := x.exprTokens(s)
@@ -457,6 +528,9 @@ func (x *c20Extractor) stmt(s ast.Stmt) []c20Path {
 
 type c20Regions struct {
 	worker, handler, signals []c20Path
+	// retirement: waitForControlPlaneDrain, retireControlPlaneConnections,
+	// startControlPlaneRetirement and the body of its goroutine
+	drain, retire, startret, retgo []c20Path
 	stats                    map[string]int
 }
 
@@ -515,7 +589,41 @@ func c20ExtractRegions(repo string) (*c20Regions, error) {
 	r.worker = norm(x.block(workerBody), "next")
 	r.handler = norm(x.block(handlerBody), "next")
 	r.signals = norm(x.block(signalBody), "next")
-	r.stats["stmts_walked"] = x.nStmts
+	// ---- retirement functions
+	y := &c20Extractor{fset: fset, alias: map[string]string{}, commTokens: true}
+	funcBody := func(file *ast.File, name string) *ast.BlockStmt {
+		for _, d := range file.Decls {
+			if fd, ok := d.(*ast.FuncDecl); ok && fd.Name.Name == name {
+				return fd.Body
+			}
+		}
+		return nil
+	}
+	fm, err := parser.ParseFile(fset, filepath.Join(repo, "cmd", "reload_manager.go"), nil, 0)
+	if err != nil {
+		return nil, err
+	}
+	drainB, retireB, startB := funcBody(f, "waitForControlPlaneDrain"), funcBody(f, "retireControlPlaneConnections"), funcBody(fm, "startControlPlaneRetirement")
+	if drainB == nil || retireB == nil || startB == nil {
+		return nil, fmt.Errorf("retirement functions not found")
+	}
+	r.drain = norm(y.block(drainB.List), "end")
+	r.retire = norm(y.block(retireB.List), "end")
+	r.startret = norm(y.block(startB.List), "end")
+	var goBody *ast.BlockStmt
+	ast.Inspect(startB, func(n ast.Node) bool {
+		if g, ok := n.(*ast.GoStmt); ok {
+			if fl, ok := g.Call.Fun.(*ast.FuncLit); ok {
+				goBody = fl.Body
+			}
+		}
+		return true
+	})
+	if goBody == nil {
+		return nil, fmt.Errorf("retirement goroutine not found")
+	}
+	r.retgo = norm(y.block(goBody.List), "end")
+	r.stats["stmts_walked"] = x.nStmts + y.nStmts
 	r.stats["ifs_walked"] = x.nIf
 	return r, nil
 }
